@@ -31,3 +31,10 @@ Definition ip_IsLoopback (r : ipres) : bool := match r with IPOk _ lb => lb | _ 
 (* profile.ToASCII: only its error is used *)
 Definition idna_ToASCII (ace_ok : bytes -> bool) (h : bytes) : option (bytes * reason) :=
   if idna_ok ace_ok h then None else Some ([], RProhibited).
+
+(* strings.TrimSuffix *)
+Definition strings_TrimSuffix (s suf : bytes) : bytes :=
+  match cut_prefix (rev suf) (rev s) with
+  | Some r => rev r
+  | None => s
+  end.
